@@ -3,7 +3,6 @@ package c08
 // floats/scalar and cmplxs/cscalar against their documented definitions.
 
 import (
-	"fmt"
 	"math"
 	"math/big"
 	"math/cmplx"
@@ -354,7 +353,12 @@ func formatComplex(re, im float64, form int) (string, float64, float64) {
 	case 4:
 		return "(" + f(re) + ")", re, 0
 	default:
-		return fmt.Sprintf("%e%+ei", re, im), re, im
+		e := func(x float64) string { return strconv.FormatFloat(x, 'e', -1, 64) }
+		s := e(im)
+		if !math.Signbit(im) {
+			s = "+" + s
+		}
+		return e(re) + s + "i", re, im
 	}
 }
 
@@ -505,6 +509,6 @@ func scalarGrid() []scase {
 
 func TestScalar(t *testing.T) {
 	grid := scalarGrid()
-	vk.Enumerate(t, "scalar", len(grid), func(i int) scase { return grid[i] }, checkScalar)
-	vk.Run(t, "scalar", vk.Opts{Quick: 30000, Thorough: 400000, NoCrumb: true}, drawScalarCase, checkScalar)
+	vk.Enumerate(t, "scalar-fns", len(grid), func(i int) scase { return grid[i] }, checkScalar)
+	vk.Run(t, "scalar-fns", vk.Opts{Quick: 30000, Thorough: 400000, NoCrumb: true}, drawScalarCase, checkScalar)
 }
